@@ -2,6 +2,7 @@ package main
 
 import (
 	"bufio"
+	"bytes"
 	stdjson "encoding/json"
 	"flag"
 	"fmt"
@@ -92,7 +93,7 @@ func texttraceMain(args []string) int {
 		if limit > 0 && int64(len(in)) > limit {
 			hdr = in[:limit]
 		}
-		if len(hdr) > 6000 {
+		if len(hdr) > 12000 {
 			return
 		}
 		ch := bareChain(m)
@@ -160,6 +161,18 @@ func texttraceMain(args []string) int {
 						emit(in, lim, mk+"/"+bn)
 					}
 				}
+			}
+		}
+	}
+	// (1b) long text bodies: a binary byte deep inside a header of several KiB
+	long := bytes.Repeat([]byte("The quick brown fox jumps over the lazy dog. 0123456789\n"), 200) // 11 400 bytes
+	for _, v := range []byte{0x00, 0x01, 0x08, 0x0B, 0x0E, 0x1A, 0x1C, 0x1F} {
+		for _, p := range []int{3071, 3072, 4095, 4096, 4097, 5000, 8191, 8192, 8193, 11000} {
+			in := append([]byte{}, long...)
+			in[p] = v
+			binCases++
+			for _, lim := range []int64{0, 4294967295, int64(p), int64(p + 1), int64(p + 100), 3072} {
+				emit(in, lim, "long")
 			}
 		}
 	}
